@@ -149,4 +149,136 @@ Proof.
     + assumption.
 Qed.
 
+Lemma Inv_step : forall s e,
+  Inv s -> ok_event e -> wf_chain (s_node (step p true s e)) -> Inv (step p true s e).
+Proof.
+  intros s e [Hown [Hwfn [Hgn [HnB [c [Hwfc [Hgc [HcB Hst]]]]]]]] [Hno [HeB Hng]] Hwf'.
+  destruct e as [sh w|b| |b|w].
+  - exfalso. apply (Hno sh w). reflexivity.
+  - (* attach *)
+    cbn [step s_node s_wallet s_own] in *. unfold Inv. cbn [s_node s_wallet s_own].
+    split; [assumption|split; [assumption|split; [|split]]].
+    + destruct Hgn as [n' Hn]. exists (n' ++ [b]). rewrite Hn. reflexivity.
+    + intros z Hz. apply in_app_or in Hz. destruct Hz as [Hz|[Hz|[]]].
+      * apply HnB. assumption.
+      * subst z. apply HeB. left. reflexivity.
+    + exists c. tauto.
+  - (* detach *)
+    cbn [step s_node s_wallet s_own] in *. unfold Inv. cbn [s_node s_wallet s_own].
+    split; [assumption|split; [assumption|split; [|split]]].
+    + destruct Hgn as [n' Hn]. rewrite Hn in *. destruct n' as [|z n'].
+      * exfalso. cbn in Hwf'. apply (wf_nonempty _ Hwf'). reflexivity.
+      * exists (removelast (z :: n')). reflexivity.
+    + intros z Hz. apply HnB. apply removelast_in. assumption.
+    + exists c. tauto.
+  - (* process *)
+    cbn [step s_node s_wallet s_own] in *. unfold Inv. cbn [s_node s_wallet s_own].
+    split; [assumption|split; [assumption|split; [assumption|split; [assumption|]]]].
+    unfold process_or_keep. rewrite Hown. fold own.
+    destruct (process p true own (s_node s) (s_wallet s) b) as [st'|err] eqn:Hproc.
+    + rewrite Hst in Hproc.
+      apply (process_ok_L (s_node s) c b st'); try assumption.
+      * apply HeB. right. reflexivity.
+      * intros Hbg. apply Hng. rewrite Hbg. reflexivity.
+    + exists c. tauto.
+  - (* query *)
+    cbn [step s_node s_wallet s_own] in *. unfold Inv. cbn [s_node s_wallet s_own].
+    split; [assumption|split; [assumption|split; [assumption|split; [assumption|]]]].
+    exists c. tauto.
+Qed.
+
+Lemma sims_head : forall a s h, In s (sims p a s h).
+Proof. intros a s h. destruct h; left; reflexivity. Qed.
+
+Lemma Inv_run : forall post s,
+  Inv s -> (forall s', In s' (sims p true s post) -> wf_chain (s_node s')) ->
+  (forall e, In e post -> ok_event e) ->
+  Inv (fold_left (step p true) post s).
+Proof.
+  induction post as [|e post IH]; intros s Hinv Hsims Hok.
+  - assumption.
+  - cbn [fold_left]. apply IH.
+    + apply Inv_step; [assumption|apply Hok; left; reflexivity|].
+      apply Hsims. cbn [sims]. right. apply sims_head.
+    + intros s' Hs'. apply Hsims. cbn [sims]. right. assumption.
+    + intros e' He'. apply Hok. right. assumption.
+Qed.
+
 End History.
+
+(* ---------------------------------------------------------------- histories *)
+
+Lemma sims_app_in : forall p a h1 h2 s s',
+  In s' (sims p a (fold_left (step p a) h1 s) h2) -> In s' (sims p a s (h1 ++ h2)).
+Proof.
+  intros p a h1. induction h1 as [|e h1 IH]; intros h2 s s' H.
+  - exact H.
+  - cbn [app sims]. right. apply IH. exact H.
+Qed.
+
+Lemma sims_prefix_in : forall p a h1 h2 s s',
+  In s' (sims p a s h1) -> In s' (sims p a s (h1 ++ h2)).
+Proof.
+  intros p a h1. induction h1 as [|e h1 IH]; intros h2 s s' H.
+  - cbn in H. destruct H as [H|[]]. subst s'. apply sims_head.
+  - cbn [app sims] in *. destruct H as [H|H]; [left; assumption|right; apply IH; assumption].
+Qed.
+
+Lemma sims_fold_in : forall p a h1 h2 s, In (fold_left (step p a) h1 s) (sims p a s (h1 ++ h2)).
+Proof. intros. apply sims_app_in. apply sims_head. Qed.
+
+Lemma node_from_g : forall p a g h s,
+  from_g g (s_node s) -> (forall s', In s' (sims p a s h) -> wf_chain (s_node s')) ->
+  from_g g (s_node (fold_left (step p a) h s)).
+Proof.
+  intros p a g h. induction h as [|e h IH]; intros s Hg Hsims.
+  - assumption.
+  - cbn [fold_left]. apply IH.
+    + assert (Hwf' : wf_chain (s_node (step p a s e))).
+      { apply Hsims. cbn [sims]. right. apply sims_head. }
+      destruct Hg as [n' Hn]. destruct e as [sh w|b| |b|w]; cbn [step s_node] in *.
+      * exists n'. assumption.
+      * exists (n' ++ [b]). rewrite Hn. reflexivity.
+      * rewrite Hn in *. destruct n' as [|z n'].
+        -- exfalso. cbn in Hwf'. apply (wf_nonempty _ Hwf'). reflexivity.
+        -- exists (removelast (z :: n')). reflexivity.
+      * exists n'. assumption.
+      * exists n'. assumption.
+    + intros s' Hs'. apply Hsims. cbn [sims]. right. assumption.
+Qed.
+
+Lemma no_attach_genesis : forall p a g h,
+  (forall s, In s (sims p a (init_sim g) h) -> wf_chain (s_node s)) -> ~ In (EvAttach g) h.
+Proof.
+  intros p a g h Hsims Hin. apply in_split in Hin. destruct Hin as [h1 [h2 Hh]].
+  assert (Hg1 : from_g g (s_node (fold_left (step p a) h1 (init_sim g)))).
+  { apply node_from_g.
+    - exists []. reflexivity.
+    - intros s' Hs'. apply Hsims. rewrite Hh. apply sims_prefix_in. assumption. }
+  assert (Hwf : wf_chain (s_node (fold_left (step p a) (h1 ++ [EvAttach g]) (init_sim g)))).
+  { apply Hsims. rewrite Hh. change (EvAttach g :: h2) with ([EvAttach g] ++ h2). rewrite app_assoc.
+    apply sims_fold_in. }
+  rewrite fold_left_app in Hwf. cbn [fold_left step s_node] in Hwf.
+  destruct Hg1 as [n' Hn]. rewrite Hn in Hwf. pose proof (wf_bids _ Hwf) as Hnd.
+  cbn [app map] in Hnd. inversion Hnd as [|? ? Hnotin _]. apply Hnotin.
+  rewrite map_app. apply in_or_app. right. left. reflexivity.
+Qed.
+
+Lemma run_owners : forall p a pre s,
+  (forall e, In e pre -> exists sh w, e = EvOwner sh w) ->
+  s_node (fold_left (step p a) pre s) = s_node s /\ s_wallet (fold_left (step p a) pre s) = s_wallet s.
+Proof.
+  intros p a pre. induction pre as [|e pre IH]; intros s Hpre.
+  - split; reflexivity.
+  - destruct (Hpre e (or_introl eq_refl)) as [sh [w He]]. subst e. cbn [fold_left].
+    destruct (IH (step p a s (EvOwner sh w))) as [H1 H2].
+    + intros e He. apply Hpre. right. assumption.
+    + rewrite H1, H2. split; reflexivity.
+Qed.
+
+Lemma blocks_of_history_in : forall h e b,
+  In e h -> e = EvAttach b \/ e = EvProcess b -> In b (blocks_of_history h).
+Proof.
+  intros h e b He Hb. unfold blocks_of_history. apply in_flat_map. exists e. split; [assumption|].
+  destruct Hb as [Hb|Hb]; subst e; left; reflexivity.
+Qed.
